@@ -276,6 +276,15 @@ def _split_runs_result(eng, st, bound):
     return (Opq(f0(sr, t)), Opq(f1(sr, t))), st
 
 
+def _runs_half(which, runs, t, what="runs"):
+    """the run annotation the constructor stores for one half: normalised split of ``runs`` at t"""
+    import z3
+    from pyvc.engine import V, int2v
+    f = z3.Function("fn:split_runs_first" if which == 0 else "fn:split_runs_second", V, V, V)
+    norm = z3.Function("fn:contracts.specfuns.norm_runs" if what == "runs" else "fn:contracts.specfuns.norm_superrun", V, V)
+    return norm(f(runs, int2v(t) if z3.is_int(t) else t))
+
+
 split_runs_abstract = Contract(
     F, "_split_runs_in_chunk", params=dict(subruns="V", t="int"), raises={},
     make_result=_split_runs_result,
@@ -314,6 +323,8 @@ def _csplit_ensures(S, a, r):
         ("early split goes to the latest admissible time",
          S.forall_val(t2 + 1, that + 1, lambda s: S.exists(0, d.n, lambda j: straddles(S, d, j, s)))),
         ("metadata carried over to both halves", S.And(meta(c1), meta(c2))),
+        ("each half records the parts of the subruns on its side of the split time (C14)",
+         S.And(S.eq(c1._subruns, _runs_half(0, o._subruns, t2)), S.eq(c2._subruns, _runs_half(1, o._subruns, t2)))),
         ("both halves are well-formed chunks again", S.And(S.And(*[f for _, f in chunk_wf(S, c1)]),
                                                            S.And(*[f for _, f in chunk_wf(S, c2)]))),
     ]
